@@ -416,6 +416,9 @@ func (e *Engine) checkExitLocks(st *State, fr *Frame, blk *Block, panicExit bool
 	want := 0
 	if blk != nil {
 		want = len(blk.All("holds")) + len(blk.All("holds-cond")) - len(blk.All("releases"))
+		if want < 0 {
+			want = 0
+		}
 		if blk.First("lock-transfer") != nil {
 			return
 		}
